@@ -692,6 +692,9 @@ func writeEvidence(cr *checkRun, prop, tier string, groups []*oblGroup, nClaimed
 		"atomics and sync.Map/atomic.Value operations are modelled sequentially on ghost state (DESIGN §5.3)",
 		"pointer parameters of non-struct element type do not alias struct fields",
 	)
+	for _, w := range immutableWriters(cr.prog, cr.specs) {
+		assumptions = append(assumptions, "write-once discipline not checked (function not under contract): "+w)
+	}
 	var unclaimedNow []string
 	for _, g := range groups {
 		if g.Status != "discharged" {
